@@ -17,7 +17,8 @@ Durations == {"0s", "1ms", "1500ms", "90s", "3days", "400days", "1h1m1s"}       
 Bools     == {"true", "false"}
 Streams   == {"stdout", "stderr", "combined"}
 Codes     == {"0", "80", "255"}
-Waits     == {"dur", "dur_path", "dur_path_space", "dur_path_special", "dur_path_edge_blank", "dur_path_blank", "dur_zero"}
+Waits     == {"dur", "dur_path", "dur_path_space", "dur_path_special", "dur_path_edge_blank", "dur_path_blank", "dur_zero",
+              "dur_path_tilde", "dur_path_at", "dur_path_colon", "dur_path_null", "dur_path_true", "dur_path_num"}      \* YAML-significant plain words
 EnvVals   == {"plain", "empty", "dquote", "squote", "backslash", "colon_space", "brace", "comma", "hash", "lead_space",
               "trail_space", "utf8", "looks_bool", "looks_num", "looks_null", "percent_at", "combining", "multiline_dashes", "controls"}
 ValuesOf(k) == CASE k = "timeout" -> Durations [] k \in {"keep_crlf", "detached", "strip_ansi_escaping"} -> Bools
